@@ -23,40 +23,6 @@ theorem base_is_current {n : Nat} {s : State} (h : Reachable n s) :
     (∀ a t, (s.loc a).pc = .cStore → (s.loc a).t = some t → (s.txns t).base = s.eng.catalog) :=
   ⟨(linv_reachable h).1, (linv_reachable h).2.1⟩
 
-theorem serialFrom_get {acc : List OpId} {cl : List CRec} (h : SerialFrom acc cl) {i : Nat} {r : CRec}
-    (hi : cl[i]? = some r) : r.base = acc ++ logOf (cl.take i) := by
-  induction cl generalizing acc i with
-  | nil => simp at hi
-  | cons x xs ih =>
-    cases i with
-    | zero =>
-      simp at hi; subst hi
-      simp [h.1]
-    | succ i =>
-      simp at hi
-      have := ih h.2 hi
-      simp [logOf_cons, this, List.append_assoc]
-
-theorem logOf_take_lt {cl : List CRec} {i j : Nat} {r : CRec} (hi : cl[i]? = some r) (hij : i < j) :
-    ∃ rest, logOf (cl.take j) = logOf (cl.take i) ++ r.ops ++ rest := by
-  induction cl generalizing i j with
-  | nil => simp at hi
-  | cons x xs ih =>
-    cases j with
-    | zero => omega
-    | succ j =>
-      cases i with
-      | zero =>
-        simp at hi; subst hi
-        exact ⟨logOf (xs.take j), by simp [logOf_cons]⟩
-      | succ i =>
-        simp at hi
-        obtain ⟨rest, h⟩ := ih (j := j) hi (by omega)
-        exact ⟨rest, by simp [logOf_cons, h, List.append_assoc]⟩
-
-theorem logOf_take_drop (cl : List CRec) (j : Nat) : logOf (cl.take j) ++ logOf (cl.drop j) = logOf cl := by
-  simp only [logOf, ← List.flatten_append, ← List.map_append, List.take_append_drop]
-
 /-- `serializable`: the catalog is the concatenation of the committed transactions' operations in
     commit order (the change log), and the `i`-th committed transaction ran on exactly the log
     produced by transactions `0..i-1` — so replaying the log one transaction at a time reproduces
